@@ -177,6 +177,167 @@ func vC07RtmpStream(r *vRng) []byte {
 	return out
 }
 
+// Stateful multi-chunk sequences: 2-6 chunks on 1-3 chunk streams, all four header formats, where
+// every later header's fields are drawn relative to what the reader has cached for that chunk
+// stream (equal / smaller than what is already buffered / larger / extreme), partial messages are
+// left pending, Set Chunk Size (1 .. huge), Abort and Acknowledgement control messages come in
+// between, and 1-, 2- and 3-byte basic headers are mixed.  The generator tracks the reader's
+// state approximately so that most chunks are accepted up to the contradicting one.
+type vC07RtmpCs struct {
+	seen        bool
+	length, got int
+	mtype       byte
+	ext         bool
+}
+
+func vC07RtmpAdversarial(r *vRng) []byte {
+	var out []byte
+	chunk := 128
+	cids := []int{r.pickInt(2, 3, 4, 63), r.pickInt(5, 64, 319), r.pickInt(6, 320, 65599)}
+	cids = cids[:r.rng(1, 3)]
+	st := map[int]*vC07RtmpCs{}
+	basic := func(f int, cid int) {
+		switch {
+		case cid < 64 && !(cid < 2):
+			out = append(out, byte(f<<6|cid))
+		case cid < 320 && r.chance(3, 4):
+			out = append(out, byte(f<<6), byte(cid-64))
+		default:
+			out = append(out, byte(f<<6|1), byte(cid-64), byte((cid-64)>>8))
+		}
+	}
+	be3 := func(v int) { out = append(out, byte(v>>16), byte(v>>8), byte(v)) }
+	control := func() {
+		// a complete protocol control message on chunk stream 2
+		mt := byte(r.pickInt(1, 1, 2, 3, 5, 6, 4))
+		var p []byte
+		switch mt {
+		case 1:
+			cs := uint32(r.pickU64(1, 2, 64, 128, 4096, 65536, 0x7fffffff, 0x80000000, 0xffffffff, 0))
+			p = []byte{byte(cs >> 24), byte(cs >> 16), byte(cs >> 8), byte(cs)}
+			if cs != 0 && cs < 0x80000000 {
+				defer func() { chunk = int(cs) }()
+			}
+		case 4:
+			p = append([]byte{0, byte(r.pickInt(0, 3, 6, 26))}, r.bytes(r.pickInt(1, 4, 8))...)
+		case 6:
+			p = r.bytes(5)
+		default:
+			p = r.bytes(4)
+		}
+		if len(p) > chunk {
+			p = p[:chunk]
+		}
+		out = append(out, 2, 0, 0, 0, 0, 0, byte(len(p)), mt, 0, 0, 0, 0)
+		out = append(out, p...)
+	}
+	n := r.rng(2, 6)
+	for i := 0; i < n; i++ {
+		if r.chance(1, 5) {
+			control()
+			continue
+		}
+		cid := cids[r.intn(len(cids))]
+		c := st[cid]
+		if c == nil {
+			c = &vC07RtmpCs{}
+			st[cid] = c
+		}
+		f := r.intn(4)
+		if !c.seen && r.chance(4, 5) {
+			f = 0
+		}
+		contradict := c.got > 0 && r.chance(1, 2) // a new header while a partial message is pending
+		if contradict {
+			f = r.pickInt(1, 1, 1, 0, 2)
+		}
+		// the length this header declares, relative to the cached length / the bytes already buffered
+		length := c.length
+		if f <= 1 {
+			sel := r.intn(9)
+			if contradict {
+				sel = r.pickInt(1, 1, 1, 2, 5, 3, 4)
+			}
+			switch sel {
+			case 0:
+				length = c.length
+			case 1:
+				length = c.got - 1 - r.intn(3) // smaller than what is buffered
+			case 2:
+				length = c.got
+			case 3:
+				length = c.length + r.rng(1, 300)
+			case 4:
+				length = r.pickInt(0, 1, chunk-1, chunk, chunk+1, 2*chunk, 0xffffff)
+			case 5:
+				length = c.length - 1
+			default:
+				length = r.pickInt(1, 10, 100, 129, 200, 300, 1000)
+			}
+			if length < 0 {
+				length = 0
+			}
+			if length > 0xffffff {
+				length = 0xffffff
+			}
+		}
+		ts := r.pickInt(0, 1, 1000, 0xfffffe, 0xffffff)
+		basic(f, cid)
+		if f <= 2 {
+			be3(ts)
+		}
+		if f <= 1 {
+			be3(length)
+			mt := byte(r.pickInt(8, 9, 18, 20, 1, 2, 3, 4, 5, int(c.mtype)))
+			out = append(out, mt)
+			c.mtype = mt
+		}
+		if f == 0 {
+			out = append(out, byte(r.intn(3)), 0, 0, 0)
+		}
+		ext := ts == 0xffffff
+		if f == 3 {
+			ext = c.ext && r.chance(3, 4) || r.chance(1, 10)
+		}
+		if ext {
+			t := uint32(r.pickU64(0, 1, 0xffffff, 0x1000000, 0x7fffffff, 0x80000000, 0xffffffff))
+			out = append(out, byte(t>>24), byte(t>>16), byte(t>>8), byte(t))
+		}
+		if f <= 2 {
+			c.ext = ts == 0xffffff
+		}
+		c.seen = true
+		c.length = length
+		// the payload bytes the reader will ask for
+		want := length - c.got
+		if want > chunk {
+			want = chunk
+		}
+		if want < 0 {
+			want = r.intn(8)
+		}
+		give := want
+		switch r.intn(10) {
+		case 0:
+			give = want / 2 // transport ends inside the chunk
+		case 1:
+			give = want + r.intn(4)
+		}
+		if give > 70000 {
+			give = 70000
+		}
+		out = append(out, r.bytes(give)...)
+		c.got += want
+		if c.got >= length {
+			c.got = 0
+		}
+		if len(out) > vC07Max {
+			break
+		}
+	}
+	return out
+}
+
 func TestVerifC07Rtmp(t *testing.T) {
 	pk := func(name string, mk func() Packet) *vC07Dec {
 		return &vC07Dec{name: name, gen: func(r *vRng) []byte { return vC07RtmpCommand(r) }, run: func(b []byte) bool {
@@ -195,7 +356,12 @@ func TestVerifC07Rtmp(t *testing.T) {
 		return d
 	}
 	decs := []*vC07Dec{
-		{name: "rtmp.read", gen: vC07RtmpStream, run: func(b []byte) bool {
+		{name: "rtmp.read", gen: func(r *vRng) []byte {
+			if r.chance(3, 5) {
+				return vC07RtmpAdversarial(r)
+			}
+			return vC07RtmpStream(r)
+		}, run: func(b []byte) bool {
 			p := vC07RtmpProto(b)
 			for i := 0; i < 1000000; i++ {
 				m, err := p.ReadMessage()
@@ -296,7 +462,7 @@ func TestVerifC07Rtmp(t *testing.T) {
 		return out
 	}
 	fams := []*vC07Fam{
-		{name: "rtmp-one-message-128", dec: "rtmp.read", build: func(n int) []byte { return oneMsg(n, 128, false) }},
+		{name: "rtmp-one-message-128", dec: "rtmp.read", cost: "rtmp.read", build: func(n int) []byte { return oneMsg(n, 128, false) }},
 		{name: "rtmp-one-message-chunk1", dec: "rtmp.read", build: func(n int) []byte { return oneMsg(n, 1, true) }},
 		{name: "rtmp-dense-empty-messages", dec: "rtmp.read", build: func(n int) []byte {
 			out := []byte{3, 0, 0, 0, 0, 0, 0, 9, 1, 0, 0, 0}
